@@ -123,7 +123,7 @@ theorem HostOp.apply_hinv3 {s : State} (h : HInv3 s) (op : HostOp) (hok : op.ok)
     rw [hostExecute_eq]
     have hs : HInv ({ s with clock := s.clock + k } : State) :=
       ⟨hi.congr rfl rfl rfl rfl rfl rfl rfl rfl rfl, h.h2.h.cur, h.h2.h.depth, h.h2.h.td,
-        Nat.le_trans h.h2.h.ck1 (Nat.le_add_right _ _), h.h2.h.ck2, h.h2.h.ck3⟩
+        Nat.le_trans h.h2.h.ck1 (Nat.le_add_right _ _), h.h2.h.ck2⟩
     have h0 := frameSetTime_hinv hs
     have w0 : W [] (frameSetTime { s with clock := s.clock + k }) := h.w.congr rfl
     have r1 := processEvents_hr defaultFuel (frameSetTime { s with clock := s.clock + k })
